@@ -210,6 +210,19 @@ func (w *World) materialise(it Intent, h int64, idx int, sc *blockScratch) *TxPl
 			if p.Tx != nil {
 				p.Signer = ToAddr(p.Tx.From)
 			}
+			if it.Mut != nil && it.Mut.Field == "nonce" && it.Mut.How == "cur" && p.Tx != nil {
+				// the bytes of an earlier included tx with nothing but the nonce field rewritten to the value the
+				// sender's account expects now; the signature is kept (it covers the old nonce)
+				if cur := w.M.Nonce(p.Signer); cur != p.Tx.Nonce {
+					orig := p.Bytes
+					p.Tx.Nonce = cur
+					if b, xerr := p.Tx.Encode(); xerr == nil {
+						p.Bytes, p.Genuine, p.Tampered = b, orig, true
+						p.finish()
+						w.Probes.Hit("gen.replay-renonced")
+					}
+				}
+			}
 			return p
 		}
 		p.Bytes = []byte{0}
